@@ -340,6 +340,34 @@ theorem C09_qualifierLookup_fails_at :
   have := h (some 3) true
   revert this; decide
 
+/-! ## semantic actions that build CIM objects -/
+
+/-- actions_no_leak (value typing): whatever value or value/type mismatch the CIM object constructors and cimvalue()
+    reject with ValueError, TypeError or OverflowError — the only exceptions they raise for bad values — the
+    semantic actions report MOFParseError; results pass unchanged.  (The constructors themselves are C06's domain:
+    their exception classes are the hypothesis; K runs them.) -/
+theorem C09_actions_value_no_leak {α} (r : Except PyExc α)
+    (h : ∀ e, r = .error e → e = .valueError ∨ e = .typeError ∨ e = .overflowError) :
+    (∃ v, r = .ok v ∧ cimObject r = .ok v) ∨ cimObject r = .error .mofParseError := by
+  cases r with
+  | ok v => exact Or.inl ⟨v, rfl, rfl⟩
+  | error e =>
+    rcases h e rfl with h | h | h <;> subst h <;> exact Or.inr rfl
+
+/-- embedded instance values: for every kind of value and every outcome of the nested compile that is allowed or one
+    of the three value exceptions, the action raises nothing but allowed exceptions -/
+theorem C09_embeddedValue_no_leak (truthy allStrings : Bool) (nested : Except PyExc Nat)
+    (h : ∀ e, nested = .error e → allowed e = true ∨ e = .valueError ∨ e = .typeError ∨ e = .overflowError) :
+    noLeak (embeddedValue truthy allStrings nested) = true := by
+  unfold embeddedValue
+  cases truthy <;> cases allStrings <;> simp [noLeak, allowed]
+  cases nested with
+  | ok n => by_cases hn : n = 0 <;> simp [hn, cimObject, allowed]
+  | error e =>
+    rcases h e rfl with h | h | h | h
+    · cases e <;> simp_all [cimObject, allowed]
+    all_goals (subst h; simp [cimObject, allowed])
+
 /-! ## reuse of the compiler object -/
 
 /-- compiler_reusable: after ANY history of compile_string / compile_embedded_value calls — failed or not, with any
@@ -380,6 +408,8 @@ example : pragmaNamespace isIdChar ("root/cimv2".toList.map Char.toNat) = .ok ((
 example : pragmaNamespace isIdChar ("http://h/root".toList.map Char.toNat) = .error .mofParseError := by decide
 example : pragmaNamespace isIdChar ("///root".toList.map Char.toNat) = .ok (("root".toList.map Char.toNat)) := by decide
 example : mpCreateInstance (some 11) none true none = .ok () := by decide
+example : cimObject (.error .valueError : Except PyExc Unit) = .error .mofParseError := by decide
+example : embeddedValue true false (.ok 1) = .error .mofParseError := by decide
 example : mpCreateClass { createClass := [some 4, none], hasServer := false, createNs := none, hasSuper := false,
                           superMof := none, nsInQualcache := true, qualsKnown := true, qualFiles := .ok (),
                           depsOutcome := .ok (), modifyClass := none } = .ok () := by decide
